@@ -240,11 +240,15 @@ BadMatch(x, ctx) == \E y \in TermsOf(x) : y.t = "op" /\ y.s = "Match" /\ ctx = "
 BadVarPkg(x) == \E y \in TermsOf(x) : y.t = "varpackage" /\ OneByte(y.a[1]) < 0
 RelRef(x, ctx) == \E y \in TermsOf(x) : (y.t = "call" \/ (y.t = "ref" /\ ctx = "strict")) /\ RelPath(y.f)
 
+\* D7 (same root: a package end that is never popped): in a deferred block a Buffer / Package / VarPackage that is read as an ARGUMENT
+\* OF AN INVOCATION leaves its package end behind; the next argument or statement is not read (table rejected)
+PkgArgInDeferred(x) == \E y \in TermsOf(x) : y.t = "call" /\ \E i \in 1..Len(y.a) : y.a[i].t \in {"buffer", "package", "varpackage"}
 \* triggers of one term x read in scope cur (ctx flat/strict; stmt: x is a whole statement or declaration value)
 TermTrigX(st, cur, x, ctx) ==
   LET v == Vis(st) IN
   (IF ctx = "flat" /\ XD5(x, FALSE) THEN {"D5"} ELSE {})
   \cup (IF ctx = "strict" /\ XD6obj(x) THEN {"D6"} ELSE {})
+  \cup (IF (ctx = "strict" /\ PkgArgInDeferred(x)) \/ \E b \in BufLens(x) : PkgArgInDeferred(b) THEN {"D7"} ELSE {})
   \cup (IF ctx = "flat" /\ \E b \in BufLens(x) : XD6top(b) THEN {"D6"} ELSE {})
   \cup (IF Dev_LoadTableSevenOperands /\ UsesLoadTable(x) THEN {"LoadTableSevenOperands"} ELSE {})
   \cup (IF Dev_MatchOperatorBytes /\ BadMatch(x, ctx) THEN {"MatchOperatorBytes"} ELSE {})
